@@ -151,13 +151,13 @@ package keeper
 
 //@ func (Keeper).PauseRequestContext
 //@ vars (keeper.Keeper).PauseRequestContext: k=github.com/irismod/service/keeper.Keeper#0 ctx=github.com/cosmos/cosmos-sdk/types.Context#0 requestContextID=github.com/tendermint/tendermint/libs/bytes.HexBytes#0 consumer=github.com/cosmos/cosmos-sdk/types.AccAddress#0 requestContext=github.com/irismod/service/types.RequestContext#0 found=bool#0 err=error#0
-//@ preserves [C01,C02,C16,C11] pending_requests_stay_well_formed: actInv(raw)
+//@ preserves [C01,C02,C16,C11,C04] pending_requests_stay_well_formed: actInv(raw)
 //@ props C09 C05
 //@ preserves [C16] both_pending_indexes_list_the_same_requests: idxInv(raw)
 //@ preserves [C16] no_orphan_request_or_response_record: recInv(raw)
 //@ preserves [C10] never_more_batches_than_the_largest_total: cadInv(raw, ghostMaxTot)
 //@ preserves [C11] no_event_in_the_past: futInv(raw, ctxHeight(ctx))
-//@ preserves [C12,C16,C08] open_batches_count_their_pending_requests: cntInv(raw)
+//@ preserves [C12,C16,C08,C04] open_batches_count_their_pending_requests: cntInv(raw)
 //@ preserves [C11] queues_stay_well_formed: schedInv(raw)
 //@ modifies raw
 //@ ensures [C09] only_repeated_running: err == NoErr ==> (let c := ctxOf(old(raw), requestContextID) in ctxFound(old(raw), requestContextID) && c.Repeated && c.State == RUNNING)
@@ -167,7 +167,7 @@ package keeper
 
 //@ func (Keeper).StartRequestContext
 //@ vars (keeper.Keeper).StartRequestContext: k=github.com/irismod/service/keeper.Keeper#0 ctx=github.com/cosmos/cosmos-sdk/types.Context#0 requestContextID=github.com/tendermint/tendermint/libs/bytes.HexBytes#0 consumer=github.com/cosmos/cosmos-sdk/types.AccAddress#0 requestContext=github.com/irismod/service/types.RequestContext#0 found=bool#0 err=error#0 needsNewBatch=bool#1 remaining=bool#2
-//@ preserves [C01,C02,C16,C11] pending_requests_stay_well_formed: actInv(raw)
+//@ preserves [C01,C02,C16,C11,C04] pending_requests_stay_well_formed: actInv(raw)
 //@ props C09 C05 C10 C11 C16 C08 C04 C02 C01
 //@ preserves [C16] both_pending_indexes_list_the_same_requests: idxInv(raw)
 //@ preserves [C16] no_orphan_request_or_response_record: recInv(raw)
@@ -177,7 +177,7 @@ package keeper
 //@ ensures [C10] never_more_batches_than_the_largest_total_kept_when_restarted_after_the_last_batch: err == NoErr ==> (let c := ctxOf(old(raw), requestContextID) in
 //@      !(hasExp(old(raw), requestContextID) || hasNew(old(raw), requestContextID) || (c.Repeated ? c.BatchCounter < effTotal(c) : c.BatchCounter == 0)) ==> cadInv(raw, ghostMaxTot))
 //@ preserves [C11] no_event_in_the_past: futInv(raw, ctxHeight(ctx))
-//@ preserves [C12,C16,C08] open_batches_count_their_pending_requests: cntInv(raw)
+//@ preserves [C12,C16,C08,C04] open_batches_count_their_pending_requests: cntInv(raw)
 //@ preserves [C11] queues_stay_well_formed: schedInv(raw)
 //@ modifies raw
 //@ ensures [C09] only_paused: err == NoErr ==> ctxFound(old(raw), requestContextID) && ctxOf(old(raw), requestContextID).State == PAUSED
@@ -192,13 +192,13 @@ package keeper
 
 //@ func (Keeper).KillRequestContext
 //@ vars (keeper.Keeper).KillRequestContext: k=github.com/irismod/service/keeper.Keeper#0 ctx=github.com/cosmos/cosmos-sdk/types.Context#0 requestContextID=github.com/tendermint/tendermint/libs/bytes.HexBytes#0 consumer=github.com/cosmos/cosmos-sdk/types.AccAddress#0 requestContext=github.com/irismod/service/types.RequestContext#0 found=bool#0 err=error#0
-//@ preserves [C01,C02,C16,C11] pending_requests_stay_well_formed: actInv(raw)
+//@ preserves [C01,C02,C16,C11,C04] pending_requests_stay_well_formed: actInv(raw)
 //@ props C09 C05
 //@ preserves [C16] both_pending_indexes_list_the_same_requests: idxInv(raw)
 //@ preserves [C16] no_orphan_request_or_response_record: recInv(raw)
 //@ preserves [C10] never_more_batches_than_the_largest_total: cadInv(raw, ghostMaxTot)
 //@ preserves [C11] no_event_in_the_past: futInv(raw, ctxHeight(ctx))
-//@ preserves [C12,C16,C08] open_batches_count_their_pending_requests: cntInv(raw)
+//@ preserves [C12,C16,C08,C04] open_batches_count_their_pending_requests: cntInv(raw)
 //@ preserves [C11] queues_stay_well_formed: schedInv(raw)
 //@ modifies raw
 //@ ensures [C09] only_repeated: err == NoErr ==> ctxFound(old(raw), requestContextID) && ctxOf(old(raw), requestContextID).Repeated
@@ -208,14 +208,14 @@ package keeper
 
 //@ func (Keeper).UpdateRequestContext
 //@ vars (keeper.Keeper).UpdateRequestContext: k=github.com/irismod/service/keeper.Keeper#0 ctx=github.com/cosmos/cosmos-sdk/types.Context#0 requestContextID=github.com/tendermint/tendermint/libs/bytes.HexBytes#0 providers=[]github.com/cosmos/cosmos-sdk/types.AccAddress#0 respThreshold=uint32#0 serviceFeeCap=github.com/cosmos/cosmos-sdk/types.Coins#0 timeout=int64#0 repeatedFreq=uint64#0 repeatedTotal=int64#1 consumer=github.com/cosmos/cosmos-sdk/types.AccAddress#0 requestContext=github.com/irismod/service/types.RequestContext#0 found=bool#0 err=error#0 err=error#1 err=error#2 maxRequestTimeout=int64#2
-//@ preserves [C01,C02,C16,C11] pending_requests_stay_well_formed: actInv(raw)
+//@ preserves [C01,C02,C16,C11,C04] pending_requests_stay_well_formed: actInv(raw)
 //@ props C09 C05 C10
 //@ preserves [C16] both_pending_indexes_list_the_same_requests: idxInv(raw)
 //@ preserves [C16] no_orphan_request_or_response_record: recInv(raw)
 //@ requires [C10] never_more_batches_than_the_largest_total: cadInv(raw, ghostMaxTot)
 //@ ensures [C10] never_more_batches_than_the_largest_total_kept: err == NoErr ==> cadInv(raw, maxNext(ghostMaxTot, raw))
 //@ preserves [C11] no_event_in_the_past: futInv(raw, ctxHeight(ctx))
-//@ preserves [C12,C16,C08] open_batches_count_their_pending_requests: cntInv(raw)
+//@ preserves [C12,C16,C08,C04] open_batches_count_their_pending_requests: cntInv(raw)
 //@ preserves [C11] queues_stay_well_formed: schedInv(raw)
 //@ modifies raw
 //@ requires [C09] stored_context_in_range: ctxFound(raw, requestContextID) ==> rng_RequestContext(ctxOf(raw, requestContextID))
@@ -389,8 +389,8 @@ package keeper
 //@ preserves [C10] never_more_batches_than_the_largest_total: cadInv(raw, ghostMaxTot)
 //@ preserves [C11] no_event_in_the_past: futInv(raw, ctxHeight(ctx))
 //@ preserves [C11] queues_stay_well_formed: schedInv(raw)
-//@ preserves [C12,C16,C08] open_batches_count_their_pending_requests: cntInv(raw)
-//@ preserves [C16,C08,C02,C01] pending_requests_stay_well_formed: actInv(raw)
+//@ preserves [C12,C16,C08,C04] open_batches_count_their_pending_requests: cntInv(raw)
+//@ preserves [C16,C08,C02,C01,C04] pending_requests_stay_well_formed: actInv(raw)
 //@ after pending_requests_stay_well_formed_kept assume open_batches_count_their_pending_requests_kept
 //@ modifies raw, bal, supply, cblog
 //@ preserves wf: WF(raw)
@@ -518,9 +518,9 @@ package keeper
 //@ requires [C10] never_more_batches_than_the_largest_total: cadInv(raw, ghostMaxTot)
 //@ ensures [C10] never_more_batches_than_the_largest_total_kept: err == NoErr ==> cadInv(raw, maxNext(ghostMaxTot, raw))
 //@ preserves [C11] no_event_in_the_past: futInv(raw, ctxHeight(ctx))
-//@ preserves [C12,C16,C08] open_batches_count_their_pending_requests: cntInv(raw)
+//@ preserves [C12,C16,C08,C04] open_batches_count_their_pending_requests: cntInv(raw)
 //@ preserves [C11] queues_stay_well_formed: schedInv(raw)
-//@ preserves [C16,C08,C02,C01] pending_requests_stay_well_formed: actInv(raw)
+//@ preserves [C16,C08,C02,C01,C04] pending_requests_stay_well_formed: actInv(raw)
 //@ modifies raw
 //@ requires in_range: 0 <= repeatedFrequency && repeatedFrequency <= 18446744073709551615 && 0 <= responseThreshold && responseThreshold <= 4294967295 && 0 <= state && state <= 2
 //@ requires a4_fresh_id: !ctxFound(raw, mkCtxID(ctxTxHash(ctx), ctxMsgIndex(ctx)))
@@ -771,8 +771,8 @@ package keeper
 //@ modifies raw, bal, supply, cblog
 //@ preserves wf: WF(raw)
 //@ preserves [C03] deposits_in_custody: depInv(raw, bal)
-//@ preserves [C16] pending_requests_stay_well_formed: actInv(raw)
-//@ preserves [C12] open_batches_count_their_pending_requests: cntInv(raw)
+//@ preserves [C16,C04] pending_requests_stay_well_formed: actInv(raw)
+//@ preserves [C12,C04] open_batches_count_their_pending_requests: cntInv(raw)
 //@ requires [C11] the_first_batch_is_queued: futInv(raw, ctxHeight(ctx)) && cadInv(raw, ghostMaxTot) && schedInv(raw)
 //@ ensures [C11,C10] invariants_after_the_immediate_batch: err == NoErr ==> futInv(raw, ctxHeight(ctx)) && cadInv(raw, ghostMaxTot) && schedInv(raw)
 //@ requires just_created: ctxFound(raw, reqContextID) && rng_RequestContext(ctxOf(raw, reqContextID)) && ctxOf(raw, reqContextID).BatchCounter == 0 && !ctxOf(raw, reqContextID).Repeated &&
